@@ -189,13 +189,26 @@ func (r *Run) checkEffectTable(P string, windowOnly bool) {
 				} else if prim.Kind == "cmp" {
 					c := r.classifyCheckDeep(prim, role)
 					if c == "precondition" {
-						// which direction is the failing one is decided by the exit (error)
+						// the failing direction: a create needs a state without a document, every other operation one with a document
 						if retIsErr(path[len(path)-1], ei) && i+2 == len(path) {
-							failing = c
+							wantOp := "=="
+							if role.Type == "create" {
+								wantOp = "!="
+							}
+							if prim.Op == wantOp {
+								failing = c
+							} else {
+								failing = "unknown:inverted-precondition"
+							}
 						}
 					} else if c == "suffix" {
+						// the failing direction: the signed suffix differs from the operation's suffix
 						if retIsErr(path[len(path)-1], ei) && i+2 == len(path) {
-							failing = c
+							if prim.Op == "!=" {
+								failing = c
+							} else {
+								failing = "unknown:inverted-suffix-test"
+							}
 						}
 					}
 				}
